@@ -125,6 +125,64 @@ func (o *oracle) oracleAgent() {
 	}
 }
 
+// oracleAgentMany: large tables - one Collect times out exactly the transactions whose deadline is strictly before t,
+// however many there are, and Close reports exactly the rest.
+func (o *oracle) oracleAgentMany() {
+	base := time.Unix(1000, 0)
+	for _, n := range []int{1, 7, 99, 100, 101, 137, 300, 1000} {
+		if o.fails >= 3 {
+			return
+		}
+		o.cases++
+		got := map[[12]byte][]error{}
+		a := NewAgent(func(e Event) { got[e.TransactionID] = append(got[e.TransactionID], e.Error) })
+		expired := map[[12]byte]bool{}
+		all := map[[12]byte]bool{}
+		for i := 0; i < n; i++ {
+			var id [12]byte
+			id[0], id[1], id[2] = byte(i), byte(i>>8), 0x5a
+			d := base.Add(time.Duration(o.rng.Intn(3)) * time.Second) // 0, 1 or 2 s
+			if i%5 == 4 {
+				d = base.Add(10 * time.Second) // some stay alive
+			}
+			if err := a.Start(id, d); err != nil {
+				o.failf("agent with %d transactions: Start returned %v", n, err)
+				return
+			}
+			all[id] = true
+			if d.Before(base.Add(2 * time.Second)) {
+				expired[id] = true
+			}
+		}
+		if err := a.Collect(base.Add(2 * time.Second)); err != nil {
+			o.failf("agent with %d transactions: Collect returned %v", n, err)
+		}
+		nTimeout := 0
+		for id, errs := range got {
+			if !expired[id] || len(errs) != 1 || !errors.Is(errs[0], ErrTransactionTimeOut) {
+				o.failf("agent with %d transactions (%d expired): Collect(t) reported %v for %x (expired before t: %v)", n, len(expired), errs, id[:3], expired[id])
+				break
+			}
+			nTimeout++
+		}
+		if nTimeout != len(expired) {
+			o.failf("agent with %d transactions registered, %d of them with a deadline before t: one Collect(t) emitted %d timeouts", n, len(expired), nTimeout)
+		}
+		_ = a.Close()
+		for id := range all {
+			errs := got[id]
+			if len(errs) != 1 {
+				o.failf("agent with %d transactions: %x received %d terminal events after Collect and Close: %v", n, id[:3], len(errs), errs)
+				break
+			}
+			if !expired[id] && !errors.Is(errs[0], ErrAgentClosed) {
+				o.failf("agent with %d transactions: live transaction %x got %v instead of the closed event", n, id[:3], errs[0])
+				break
+			}
+		}
+	}
+}
+
 // oracleAgentConcurrent: C14 - overlapping calls; every registered transaction gets exactly one terminal event, no deadlock.
 func (o *oracle) oracleAgentConcurrent() {
 	for o.more() {
@@ -190,10 +248,11 @@ func (o *oracle) oracleAgentConcurrent() {
 	}
 }
 
-func TestOracleC13(t *testing.T) { o := newOracle(t); o.oracleAgent() }
+func TestOracleC13(t *testing.T) { o := newOracle(t); o.oracleAgentMany(); o.oracleAgent() }
 func TestOracleC14(t *testing.T) {
 	o := newOracle(t)
 	o.deadline = o.deadline.Add(-oracleBudget() / 2)
+	o.oracleAgentMany()
 	o.oracleAgent()
 	o.deadline = o.deadline.Add(oracleBudget() / 2)
 	o.oracleAgentConcurrent()
